@@ -7,8 +7,8 @@
    at one item and its two neighbours.  [stream_ok] is the conjunction "every item is fine in its
    context" spelled out with <= and <.  [serial] / [parallel] are the models of the two sources of
    beddata.rs; [bw_write], [bw_write_multipass] the bigWig writer model of Model/BigWigWrite.v. *)
-From BT Require Import Base.Util Base.Float Model.RTree Model.BBIFile Model.BigWigWrite Model.Accept
-  Model.AcceptBed Proofs.RTreeShape Proofs.AcceptParse Proofs.AcceptRules Proofs.AcceptParallel Proofs.WriterTotal
+From BT Require Import Base.Util Base.Float Model.RTree Model.BBIFile Model.BigWigWrite Model.Accept Model.Utf8
+  Model.AcceptBed Proofs.Utf8Text Proofs.RTreeShape Proofs.AcceptParse Proofs.AcceptRules Proofs.AcceptParallel Proofs.WriterTotal
   Proofs.WriterTotalBed.
 From BT Require Model.BigBedWrite.
 Local Open Scope N_scope.
@@ -73,29 +73,55 @@ Qed.
 Print Assumptions C13_bb_position_independent.
 
 (* ---- text: a line that does not parse, anywhere, is an error; when every line parses the
-   rules decide; the serial source never panics and never runs out of fuel (it has none) ---- *)
+   rules decide; the serial source never panics and never runs out of fuel (it has none).
+   The sources are the ones behind the real line reader (Model/Utf8.v: [bw_lines_u], [bb_lines_u]):
+   a line that is not well-formed UTF-8 ([utf8_ok] false: read_line fails, class 50) is a line that
+   does not parse (third clause), so it is refused wherever it stands; on a text whose lines are all
+   UTF-8 these sources are the byte-level ones of Model/Accept.v (fourth clause), which is what the
+   composition theorems with C18's slicing at the end of this file are stated over. ---- *)
 Theorem C13_bw_text : forall fok o sizes text,
-  (all_ok (bw_lines fok text) = None -> exists k, bw_text_serial fok o sizes text = Err k)
-  /\ (forall items, all_ok (bw_lines fok text) = Some items ->
-      bw_text_serial fok o sizes text = rule_verdict bw_val_class (o_sort_all o) sizes items).
+  (all_ok (bw_lines_u fok text) = None -> exists k, bw_text_serial_u fok o sizes text = Err k)
+  /\ (forall items, all_ok (bw_lines_u fok text) = Some items ->
+      bw_text_serial_u fok o sizes text = rule_verdict bw_val_class (o_sort_all o) sizes items)
+  /\ (forall l, In l (lines_of text) -> utf8_ok l = false -> all_ok (bw_lines_u fok text) = None)
+  /\ (Forall (fun l => utf8_ok l = true) (lines_of text) ->
+      bw_lines_u fok text = bw_lines fok text /\ bw_text_serial_u fok o sizes text = bw_text_serial fok o sizes text
+      /\ bw_text_parallel_u fok o sizes text = bw_text_parallel fok o sizes text).
 Proof.
-  intros fok o sizes text. unfold bw_text_serial.
-  rewrite (serial_ext check_val (chk_of bw_val_class) check_val_class). split.
+  intros fok o sizes text. unfold bw_text_serial_u.
+  rewrite (serial_ext check_val (chk_of bw_val_class) check_val_class). split; [|split; [|split]].
   - apply serial_malformed.
   - intros items. apply serial_parsed.
+  - apply bw_lines_u_bad.
+  - intros H. unfold bw_text_parallel_u, bw_text_serial, bw_text_parallel.
+    rewrite (bw_lines_u_utf8 fok text H), (serial_ext check_val (chk_of bw_val_class) check_val_class). repeat split.
 Qed.
 Print Assumptions C13_bw_text.
 Theorem C13_bb_text : forall o sizes text,
-  (all_ok (bb_lines text) = None -> exists k, bb_text_serial o sizes text = Err k)
-  /\ (forall items, all_ok (bb_lines text) = Some items ->
-      bb_text_serial o sizes text = rule_verdict bb_val_class (o_sort_all o) sizes items).
+  (all_ok (bb_lines_u text) = None -> exists k, bb_text_serial_u o sizes text = Err k)
+  /\ (forall items, all_ok (bb_lines_u text) = Some items ->
+      bb_text_serial_u o sizes text = rule_verdict bb_val_class (o_sort_all o) sizes items)
+  /\ (forall l, In l (lines_of text) -> utf8_ok l = false -> all_ok (bb_lines_u text) = None)
+  /\ (Forall (fun l => utf8_ok l = true) (lines_of text) ->
+      bb_lines_u text = bb_lines text /\ bb_text_serial_u o sizes text = bb_text_serial o sizes text
+      /\ bb_text_parallel_u o sizes text = bb_text_parallel o sizes text).
 Proof.
-  intros o sizes text. unfold bb_text_serial.
-  rewrite (serial_ext bb_check_val (chk_of bb_val_class) bb_check_val_class). split.
+  intros o sizes text. unfold bb_text_serial_u.
+  rewrite (serial_ext bb_check_val (chk_of bb_val_class) bb_check_val_class). split; [|split; [|split]].
   - apply serial_malformed.
   - intros items. apply serial_parsed.
+  - apply bb_lines_u_bad.
+  - intros H. unfold bb_text_parallel_u, bb_text_serial, bb_text_parallel.
+    rewrite (bb_lines_u_utf8 text H), (serial_ext bb_check_val (chk_of bb_val_class) bb_check_val_class). repeat split.
 Qed.
 Print Assumptions C13_bb_text.
+(* a two-line bedGraph text whose second line holds FF FE in the value field: the third clause
+   applies (the byte-level source of Accept.v accepted this text: Proofs/Utf8Text.v utf8_line_order) *)
+Example C13_example_not_utf8 :
+  let text := [99;9;48;9;53;9;49;10; 99;9;53;9;57;9;255;254;10] in
+  In [99;9;53;9;57;9;255;254] (lines_of text) /\ utf8_ok [99;9;53;9;57;9;255;254] = false /\
+  Forall (fun l => utf8_ok l = true) (lines_of [99;9;48;9;53;9;49;10; 99;9;53;9;57;9;195;169;10]).
+Proof. vm_compute. split; [right; left; reflexivity|split; [reflexivity|repeat constructor]]. Qed.
 
 (* ---- serial and parallel source: the same texts are accepted.  [line_runs l] is the chromosome
    index of the text (runs of lines with the same first field); the parallel source checks order
@@ -118,16 +144,16 @@ Qed.
 Print Assumptions C13_serial_eq_parallel_verdict.
 (* the same for the two text formats *)
 Theorem C13_text_serial_eq_parallel : forall fok o sizes text, lines_of text <> [] ->
-  (bw_text_serial fok o sizes text = Ok tt <-> bw_text_parallel fok o sizes text = Ok tt)
-  /\ (bb_text_serial o sizes text = Ok tt <-> bb_text_parallel o sizes text = Ok tt).
+  (bw_text_serial_u fok o sizes text = Ok tt <-> bw_text_parallel_u fok o sizes text = Ok tt)
+  /\ (bb_text_serial_u o sizes text = Ok tt <-> bb_text_parallel_u o sizes text = Ok tt).
 Proof.
-  intros fok o sizes text Hne. unfold bw_text_serial, bw_text_parallel, bb_text_serial, bb_text_parallel. split.
+  intros fok o sizes text Hne. unfold bw_text_serial_u, bw_text_parallel_u, bb_text_serial_u, bb_text_parallel_u. split.
   - rewrite (serial_ext check_val (chk_of bw_val_class) check_val_class),
             (parallel_ext check_val (chk_of bw_val_class) check_val_class).
-    apply C13_serial_eq_parallel_verdict. unfold bw_lines. intros E. apply map_eq_nil in E. contradiction.
+    apply C13_serial_eq_parallel_verdict. unfold bw_lines_u. intros E. apply map_eq_nil in E. contradiction.
   - rewrite (serial_ext bb_check_val (chk_of bb_val_class) bb_check_val_class),
             (parallel_ext bb_check_val (chk_of bb_val_class) bb_check_val_class).
-    apply C13_serial_eq_parallel_verdict. unfold bb_lines. intros E. apply map_eq_nil in E. contradiction.
+    apply C13_serial_eq_parallel_verdict. unfold bb_lines_u. intros E. apply map_eq_nil in E. contradiction.
 Qed.
 Print Assumptions C13_text_serial_eq_parallel.
 
